@@ -538,6 +538,9 @@ func (comp *Compiler) Compile(stmts []*gripql.GraphStatement, opts *gdbi.Compile
 				return &Pipeline{}, fmt.Errorf(`"hasLabel" statement is only valid for edge or vertex types not: %s`, lastType.String())
 			}
 			labels := protoutil.AsStringList(stmt.HasLabel)
+			if len(labels) == 0 {
+				return &Pipeline{}, fmt.Errorf(`no labels provided to "HasLabel" statement`)
+			}
 			ilabels := make([]interface{}, len(labels))
 			for i, v := range labels {
 				ilabels[i] = v
@@ -552,6 +555,9 @@ func (comp *Compiler) Compile(stmts []*gripql.GraphStatement, opts *gdbi.Compile
 				return &Pipeline{}, fmt.Errorf(`"hasId" statement is only valid for edge or vertex types not: %s`, lastType.String())
 			}
 			ids := protoutil.AsStringList(stmt.HasId)
+			if len(ids) == 0 {
+				return &Pipeline{}, fmt.Errorf(`no ids provided to "HasId" statement`)
+			}
 			iids := make([]interface{}, len(ids))
 			for i, v := range ids {
 				iids[i] = v
@@ -567,6 +573,9 @@ func (comp *Compiler) Compile(stmts []*gripql.GraphStatement, opts *gdbi.Compile
 			}
 			hasKeys := bson.M{}
 			keys := protoutil.AsStringList(stmt.HasKey)
+			if len(keys) == 0 {
+				return &Pipeline{}, fmt.Errorf(`no keys provided to "HasKey" statement`)
+			}
 			for _, key := range keys {
 				key = jsonpath.GetJSONPath(key)
 				key = strings.TrimPrefix(key, "$.")
